@@ -45,6 +45,12 @@ def load_known():
 def classify(pid, unit, res):
     """-> dict(verdict=held|violated|inconclusive|sanity_ok, reasons=[...], candidates=[...])"""
     out = dict(verdict="held", reasons=[], candidates=[], other_props=[])
+    if res.status == "timeout" or (res.status == "error" and "out of memory" in res.note):
+        # the solver ran out of its time or memory allowance: nothing was decided for this unit.
+        # Never a pass and never an alarm: reported as UNEXPLORED and left out of the claim.
+        out["verdict"] = "unexplored"
+        out["reasons"].append("%s: %s" % (res.status, res.note))
+        return out
     if res.status in ("error", "timeout"):
         out["verdict"] = "inconclusive"
         out["reasons"].append("%s: %s" % (res.status, res.note))
@@ -101,6 +107,10 @@ def classify(pid, unit, res):
             out["verdict"] = "inconclusive"
             out["reasons"].append("verification failed without classified failure")
         bad_covers = [(d, s) for (d, s, _l) in res.covers if s != "SATISFIED"]
+        if getattr(unit, "covers", "all") == "any" and len(bad_covers) < len(res.covers):
+            # one body serves several shapes (stack harnesses): the witnesses that belong to other
+            # shapes cannot fire; at least one witness placed after the operation must.
+            bad_covers = []
         # covers may legitimately be cut short by an *other* property's failure
         if bad_covers and not out["other_props"]:
             out["verdict"] = "inconclusive"
@@ -126,7 +136,7 @@ def run_property(pid, tier, only=None, keep=False, seed=0):
         if kunits:
             log("building scratch crate with harness groups", groups, "in", scratch.dir)
             tb = time.time()
-            ok, blog = core.build(scratch)
+            ok, blog = core.build(scratch, [(u.group, u.name) for u in kunits])
             log("build %s in %.0fs" % ("ok" if ok else "FAILED", time.time() - tb))
             if not ok:
                 build_problem = blog[-3000:]
@@ -139,7 +149,7 @@ def run_property(pid, tier, only=None, keep=False, seed=0):
                 try:
                     log("run", u.name)
                     r = core.run_kani(scratch, u.name, group=u.group, timeout=u.timeout, mem_gb=u.mem_gb,
-                                      unwind_rules=u.rules)
+                                      unwind_rules=u.rules, extra_args=core.lean_args(u))
                     log("done %s: %s in %.0fs (solver %.0fs) failed=%d" % (
                         u.name, r.status, r.wall_s, r.solver_s, len(r.failed)))
                     results[u.name] = r
@@ -170,8 +180,11 @@ def run_property(pid, tier, only=None, keep=False, seed=0):
         violations = []
         known_hits = []
         inconclusive = []
+        unexplored = []
         for rec in records:
             cls = rec["cls"]
+            if cls["verdict"] == "unexplored":
+                unexplored.append((rec["unit"].name, cls["reasons"]))
             if cls["verdict"] == "inconclusive":
                 inconclusive.append((rec["unit"].name, cls["reasons"]))
             if cls["verdict"] == "violated":
@@ -189,22 +202,27 @@ def run_property(pid, tier, only=None, keep=False, seed=0):
         if scratch:
             scratch.cleanup()
     wall = time.time() - t0
-    ev = write_evidence(pid, tier, seed, spec, records, violations, known_hits, inconclusive, wall)
+    decided = [r for r in records if r["cls"]["verdict"] in ("held", "sanity_ok", "violated")]
+    if unexplored and not decided:
+        inconclusive.extend(unexplored)
+    ev = write_evidence(pid, tier, seed, spec, records, violations, known_hits, inconclusive, wall, unexplored)
     for (k, rp) in known_hits:
         print("KNOWN-FINDING: property=%s %s" % (pid, k["what"]))
     for rp in violations:
         print("VIOLATION property=%s replay=%s" % (pid, rp["path"]))
+    for name, reasons in unexplored:
+        print("UNEXPLORED property=%s unit=%s (left out of the claim): %s" % (pid, name, "; ".join(reasons)[:300]))
     for name, reasons in inconclusive:
         print("INCONCLUSIVE property=%s unit=%s: %s" % (pid, name, "; ".join(reasons)[:1500]))
     if violations:
         return 1
     if inconclusive:
         return 2
-    print("HELD property=%s tier=%s units=%d wall=%.0fs" % (pid, tier, len(records), wall))
+    print("HELD property=%s tier=%s units=%d decided=%d wall=%.0fs" % (pid, tier, len(records), len(decided), wall))
     return 0
 
 
-def write_evidence(pid, tier, seed, spec, records, violations, known_hits, inconclusive, wall):
+def write_evidence(pid, tier, seed, spec, records, violations, known_hits, inconclusive, wall, unexplored=()):
     samples = []
     all_stubs = set()
     evaluations = 0
@@ -275,6 +293,7 @@ def write_evidence(pid, tier, seed, spec, records, violations, known_hits, incon
         violations=len(violations),
         known_findings=[k["what"] for (k, _rp) in known_hits],
         inconclusive=[dict(unit=n, reasons=r) for (n, r) in inconclusive],
+        unexplored=[dict(unit=n, reasons=r) for (n, r) in unexplored],
     )
     os.makedirs(os.path.join(core.VERIF, "evidence"), exist_ok=True)
     with open(os.path.join(core.VERIF, "evidence", pid + ".json"), "w") as f:
